@@ -163,6 +163,20 @@ reg("C18", "exploration",
     "DESIGN.md section 3, C18")
 
 
+reg("C10", "exploration",
+    "Differential interop search against an independent RFC 3412/3414 implementation: every SNMPv3 request of the real client is "
+    "checked by the reference agent (msgFlags = level of the credentials + reportable for get / get-next / get-bulk / set; discovered "
+    "engine id, boots, time, user name; 12-octet HMAC-MD5/SHA-1-96 verified over the bytes as sent with the RFC 3414 A.2 key; usmStats "
+    "counters must not move), and every authentic minimal-BER response the agent produces must be accepted and decoded to the "
+    "agent's answer. Deterministic sweeps cover EVERY password length 1..300 for both hashes and payload sizes driving message / "
+    "scoped PDU / PDU lengths through 100..300 on both sides; Hypothesis generates multi-session cases in one process (same "
+    "password with the other hash, same password towards other engines, same user name with another password, engine ids with "
+    "runs of zero octets, context engine ids) to defeat wrongly keyed caches.",
+    "Trusts lib/vagent.py (validated against the RFC 3414 A.3 vectors at start-up). Known finding reencoded_len_127 is excluded only when trigger AND signature match and is re-demonstrated from known/C10-reencoded-len-127.json on every run.",
+    "differential testing against an independent RFC 3414 implementation: Hypothesis multi-session cases + exhaustive password-length and message-length sweeps",
+    "DESIGN.md section 3, C10")
+
+
 def main():
     present = sorted(os.path.basename(p)[:3].upper()
                      for p in glob.glob(os.path.join(VERIF, "checks", "c[0-9][0-9]_*.py")))
